@@ -91,6 +91,13 @@ def make_obj(v):
 
 
 def resolve(rel, func, cls):
+    if rel.startswith('verif:'):
+        # harness-side driver program over the repository's real classes
+        import pyspike
+        ns = dict(PieceWiseConstFunc=pyspike.PieceWiseConstFunc, PieceWiseLinFunc=pyspike.PieceWiseLinFunc,
+                  DiscreteFunc=pyspike.DiscreteFunc, SpikeTrain=pyspike.SpikeTrain, np=np)
+        exec(compile(open(os.path.join(HERE, rel[6:])).read(), rel, 'exec'), ns)
+        return ns[func]
     if rel.endswith('.pyx'):
         mods = inject_extracted()
         m = mods[os.path.basename(rel)[:-4]]
